@@ -83,6 +83,7 @@ type renderer struct {
 	src      []Entity
 	keys     []string
 	visiting map[*Entity]bool
+	cur      *Entity // function being rendered
 }
 
 // direct reports whether the global's only initialiser reference is rendered as a plain
@@ -377,6 +378,8 @@ func Render(src []Entity) string {
 }
 
 func (r *renderer) renderFunc(sb *strings.Builder, e *Entity, key string) {
+	r.cur = e
+	defer func() { r.cur = nil }()
 	ret, _ := r.funcSig(e)
 	var params []string
 	if t := refsOf(e, "ty.sig"); len(t) > 0 {
@@ -451,6 +454,50 @@ func (r *renderer) renderFunc(sb *strings.Builder, e *Entity, key string) {
 				curTerm = fmt.Sprintf("br i1 true, label %%%s, label %%%s", ts[0], ts[1])
 			}
 			curTerm += r.mdAttach(l.Refs, ", ")
+		case "invoke":
+			// a value-producing terminator: %n = invoke <ret> @callee(args) to label %T unwind label %U
+			if !open {
+				open = true
+			}
+			callee, ts := "zz", []string{}
+			for _, x := range l.Refs {
+				switch x.RK {
+				case "g.callee":
+					callee = x.To
+				case "l.target":
+					ts = append(ts, x.To)
+				}
+			}
+			for len(ts) < 2 {
+				ts = append(ts, "zz")
+			}
+			cret, cargs := "void", ""
+			if ce := r.findGlob(callee); ce != nil {
+				var ps []string
+				cret, ps = r.funcSig(ce)
+				for i, p := range ps {
+					if i > 0 {
+						cargs += ", "
+					}
+					cargs += p + " null"
+				}
+			}
+			lhs := ""
+			if l.N != "" && cret != "void" {
+				lhs = "%" + l.N + " = "
+			}
+			fmt.Fprintf(sb, "  %sinvoke %s %s(%s)\n          to label %%%s unwind label %%%s%s\n", lhs, cret, gname(callee), cargs, ts[0], ts[1], r.mdAttach(l.Refs, " "))
+			open = false
+		case "lpad":
+			if !open {
+				open = true
+				curTerm = retInst
+			}
+			lhs := ""
+			if l.N != "" {
+				lhs = "%" + l.N + " = "
+			}
+			fmt.Fprintf(sb, "  %slandingpad { i8*, i32 }\n          cleanup\n", lhs)
 		case "inst", "void":
 			if !open {
 				open = true
@@ -461,6 +508,26 @@ func (r *renderer) renderFunc(sb *strings.Builder, e *Entity, key string) {
 	}
 	flush()
 	sb.WriteString("}\n")
+}
+
+// localType returns the type of a local value of the function being rendered.
+func (r *renderer) localType(name string) string {
+	if r.cur == nil {
+		return "i32"
+	}
+	for _, l := range r.cur.Locals {
+		if l.N == name && l.LK == "invoke" {
+			for _, x := range l.Refs {
+				if x.RK == "g.callee" {
+					if ce := r.findGlob(x.To); ce != nil {
+						ret, _ := r.funcSig(ce)
+						return ret
+					}
+				}
+			}
+		}
+	}
+	return "i32"
 }
 
 func (r *renderer) renderInst(l *Local) string {
@@ -502,6 +569,11 @@ func (r *renderer) renderInst(l *Local) string {
 	}
 	if len(phis) > 0 {
 		return fmt.Sprintf("%sphi i32 %s%s", lhs, strings.Join(phis, ", "), md)
+	}
+	if len(ops) == 1 {
+		if t := r.localType(strings.TrimPrefix(ops[0], "%")); t != "i32" && t != "void" {
+			return fmt.Sprintf("%sptrtoint %s %s to i32%s", lhs, t, ops[0], md)
+		}
 	}
 	switch len(ops) {
 	case 0:
